@@ -3,7 +3,9 @@
 package main
 
 import (
+	"encoding/json"
 	"fmt"
+	"io"
 	"os"
 	"path/filepath"
 	"strings"
@@ -141,6 +143,8 @@ func main() {
 		fails = c12()
 	case "C19":
 		fails = c19()
+	case "C20":
+		fails = c20()
 	}
 	for _, f := range fails {
 		fmt.Println("FAILING-CASE", f)
@@ -529,3 +533,214 @@ func c19() []string {
 }
 
 func hasKey(m map[string]string, k string) bool { _, ok := m[k]; return ok }
+
+// ---- C20: reports and listings vs what actually ran (stdout of App.Run captured through a pipe) ----
+
+func captureStdout(f func()) string {
+	old := os.Stdout
+	r, w, err := os.Pipe()
+	if err != nil {
+		return ""
+	}
+	os.Stdout = w
+	done := make(chan string)
+	go func() {
+		b, _ := io.ReadAll(r)
+		done <- string(b)
+	}()
+	f()
+	w.Close()
+	os.Stdout = old
+	return <-done
+}
+
+func c20() []string {
+	type tk struct {
+		name, doc string
+		deps      []string
+		cmds      []string
+	}
+	projects := [][]tk{
+		{{"build", "Build it", nil, []string{"echo out-build", "echo err-build 1>&2"}}},
+		{{"zeta", "", nil, []string{"echo z"}}, {"alpha", "First", []string{"zeta"}, []string{"echo a1", "echo a2"}}},
+		{{"default", "The default", nil, []string{"echo dflt"}}, {"other", "Other", nil, nil}},
+		{{"b", "bee", nil, []string{"echo b"}}, {"a", "ay", []string{"b"}, []string{"echo a"}}, {"c", "", []string{"a", "b"}, []string{"echo c; echo c2"}}},
+	}
+	var fails []string
+	total := 0
+	cwd0, _ := os.Getwd()
+	defer os.Chdir(cwd0)
+	for pi, proj := range projects {
+		text := "VB := \"one\"\nVA := \"zero\"\n"
+		hasDefault := false
+		for _, t := range proj {
+			if t.doc != "" {
+				text += "# " + t.doc + "\n"
+			}
+			deps := ""
+			for i, d := range t.deps {
+				if i > 0 {
+					deps += ", "
+				}
+				deps += d
+			}
+			text += "task " + t.name + "(" + deps + ") {\n"
+			for _, cm := range t.cmds {
+				text += "    " + cm + "\n"
+			}
+			text += "}\n\n"
+			if t.name == "default" {
+				hasDefault = true
+			}
+		}
+		last := proj[len(proj)-1].name
+		for _, mode := range []string{"json", "json-second-run", "quiet", "show", "vars", "noargs"} {
+			total++
+			base, _ := os.MkdirTemp("", "fsprobe-")
+			base, _ = filepath.EvalSymlinks(base)
+			os.WriteFile(filepath.Join(base, "spokfile"), []byte(text), 0o644)
+			os.Setenv("HOME", base)
+			os.Chdir(base)
+			desc := fmt.Sprintf("project %d mode %s", pi, mode)
+			run := func(set func(o *app.Options), args []string) (string, error) {
+				var err error
+				out := captureStdout(func() {
+					a := app.New(iostream.OS())
+					a.Options.Spokfile = filepath.Join(base, "spokfile")
+					set(a.Options)
+					err = a.Run(args)
+				})
+				return out, err
+			}
+			switch mode {
+			case "json", "json-second-run":
+				if mode == "json-second-run" {
+					run(func(o *app.Options) { o.Quiet = true }, []string{last})
+				}
+				out, err := run(func(o *app.Options) { o.JSON = true }, []string{last})
+				var got []struct {
+					Task    string `json:"task"`
+					Results []struct {
+						Cmd    string `json:"cmd"`
+						Stdout string `json:"stdout"`
+						Stderr string `json:"stderr"`
+						Status int    `json:"status"`
+					} `json:"results"`
+					Skipped bool `json:"skipped"`
+				}
+				if err != nil {
+					fails = append(fails, fmt.Sprintf("%s: unexpected error %v", desc, err))
+					break
+				}
+				if jerr := json.Unmarshal([]byte(strings.TrimSpace(out)), &got); jerr != nil || strings.Count(strings.TrimSpace(out), "\n") != 0 {
+					fails = append(fails, fmt.Sprintf("%s: stdout is not a single JSON document: %q", desc, out))
+					break
+				}
+				// expected order: dependencies first (the projects are chosen so that the order is unique)
+				var want []string
+				seen := map[string]bool{}
+				var visit func(n string)
+				visit = func(n string) {
+					if seen[n] {
+						return
+					}
+					seen[n] = true
+					for _, t := range proj {
+						if t.name == n {
+							for _, d := range t.deps {
+								visit(d)
+							}
+						}
+					}
+					want = append(want, n)
+				}
+				visit(last)
+				if len(got) != len(want) {
+					fails = append(fails, fmt.Sprintf("%s: report lists %d tasks, the run had %d", desc, len(got), len(want)))
+					break
+				}
+				for i, n := range want {
+					if got[i].Task != n {
+						fails = append(fails, fmt.Sprintf("%s: report position %d is %q, execution order says %q", desc, i, got[i].Task, n))
+						break
+					}
+					var t tk
+					for _, x := range proj {
+						if x.name == n {
+							t = x
+						}
+					}
+					if got[i].Skipped {
+						continue
+					}
+					if len(got[i].Results) != len(t.cmds) {
+						fails = append(fails, fmt.Sprintf("%s: task %s reports %d commands, it has %d", desc, n, len(got[i].Results), len(t.cmds)))
+						break
+					}
+					for k, cm := range t.cmds {
+						r := got[i].Results[k]
+						wantOut, wantErr := "", ""
+						for _, part := range strings.Split(cm, ";") {
+							part = strings.TrimSpace(part)
+							w := strings.TrimPrefix(part, "echo ")
+							if strings.HasSuffix(w, " 1>&2") {
+								wantErr += strings.TrimSuffix(w, " 1>&2") + "\n"
+							} else {
+								wantOut += w + "\n"
+							}
+						}
+						if r.Cmd != cm || r.Stdout != wantOut || r.Stderr != wantErr || r.Status != 0 {
+							fails = append(fails, fmt.Sprintf("%s: task %s command %d reported as %+v", desc, n, k, r))
+						}
+					}
+				}
+			case "quiet":
+				out, _ := run(func(o *app.Options) { o.Quiet = true }, []string{last})
+				if out != "" {
+					fails = append(fails, fmt.Sprintf("%s: --quiet printed %q", desc, out))
+				}
+			case "show", "noargs":
+				out, _ := run(func(o *app.Options) { o.Show = mode == "show" }, nil)
+				if mode == "noargs" && hasDefault {
+					if !strings.Contains(out, "dflt") {
+						fails = append(fails, fmt.Sprintf("%s: no task names given and a task named default exists, but it was not run: %q", desc, out))
+					}
+					break
+				}
+				var names []string
+				for _, t := range proj {
+					names = append(names, t.name)
+				}
+				sort.Strings(names)
+				pos := 0
+				for _, n := range names {
+					i := strings.Index(out[pos:], n)
+					if i < 0 {
+						fails = append(fails, fmt.Sprintf("%s: listing does not show %q in sorted position: %q", desc, n, out))
+						break
+					}
+					pos += i + len(n)
+				}
+				for _, t := range proj {
+					if t.doc != "" && !strings.Contains(out, t.doc) {
+						fails = append(fails, fmt.Sprintf("%s: listing does not show the docstring %q", desc, t.doc))
+					}
+				}
+			case "vars":
+				out, _ := run(func(o *app.Options) { o.Variables = true }, nil)
+				i0, i1 := strings.Index(out, "VA"), strings.Index(out, "VB")
+				if i0 < 0 || i1 < 0 || i0 > i1 || !strings.Contains(out, "zero") || !strings.Contains(out, "one") {
+					fails = append(fails, fmt.Sprintf("%s: --vars output %q", desc, out))
+				}
+			}
+			os.Chdir(cwd0)
+			os.RemoveAll(base)
+			if len(fails) >= 3 {
+				fmt.Printf("SEARCH prop=C20 cases=%d failures=%d (stopped early)\n", total, len(fails))
+				return fails
+			}
+		}
+	}
+	fmt.Printf("SEARCH prop=C20 cases=%d failures=%d\n", total, len(fails))
+	return fails
+}
